@@ -886,3 +886,8 @@ fn add_atom(
     let vars = inner.convert_all(entries);
     Ok(qb.add_atom(table, &vars, constraints)?)
 }
+
+#[cfg(egglog_verif)]
+pub(crate) mod verif_dump {
+    include!(concat!(env!("EGGLOG_VERIF_DIR"), "/engines/dump/bridge_dump.rs"));
+}
